@@ -1,7 +1,8 @@
 #!/bin/sh
 # usage: tools/evalseed.sh <ID> <k> <pkgdir> <TestName> "<checks>" [tier]
-# confirms the sub-agent's demo in its worktree (fails with, passes without), then applies the
-# patch to /repo, runs the named checks, reverts.  Prints a summary; stores nothing.
+# confirms the sub-agent's demo in its worktree (fails with, passes without), then runs the
+# named checks against that worktree with the patch applied (VERIF_REPO: /repo is not touched,
+# no evidence is written).  Prints a summary; stores nothing.
 ID=$1; K=$2; PKG=$3; TEST=$4; CHECKS=$5; TIER=${6:-quick}
 WT=/tmp/mut/$ID; M=$WT/_mutants
 export GOFLAGS=-mod=mod GOPROXY=off GOSUMDB=off
@@ -11,14 +12,12 @@ without=$(cd $WT && go test -vet=off -count=1 -run "^$TEST\$" ./$PKG/ 2>&1 | tai
 git apply $M/m$K.diff || { echo "APPLY FAILED in worktree"; exit 1; }
 with=$(cd $WT && go test -vet=off -count=1 -run "^$TEST\$" ./$PKG/ 2>&1 | tail -1)
 build=$(cd $WT && go build ./... 2>&1 | tail -1)
-rm -f $WT/$PKG/zz_demo_m${K}_test.go; git checkout -q -- .
+rm -f $WT/$PKG/zz_demo_m${K}_test.go
 echo "demo without: $without"
 echo "demo with   : $with   build: ${build:-ok}"
 cd /verif
-git -C /repo checkout -q -- . ; git -C /repo apply $M/m$K.diff || { echo "APPLY FAILED in /repo"; exit 1; }
 for c in $CHECKS; do
-  out=$(bin/verif check $c --tier $TIER 2>&1); rc=$?
+  out=$(VERIF_REPO=$WT bin/verif check $c --tier $TIER 2>&1); rc=$?
   echo "check $c ($TIER): exit=$rc $(echo "$out" | grep -m1 'class=' | cut -c1-220)"
 done
-git -C /repo checkout -q -- .
-rm -rf /verif/replays/*/
+cd $WT && git checkout -q -- .
